@@ -58,6 +58,7 @@ func windowCmd(out *cq.Out, seed uint64, tier string) {
 	if tier == "thorough" {
 		trials = 30
 	}
+	var wcases []string
 	for t := 0; t < trials; t++ {
 		dir, _ := os.MkdirTemp(out.Dir, "win")
 		ps := &parkStore{ManagedStore: openRocks(dir + "/db")}
@@ -95,52 +96,52 @@ func windowCmd(out *cq.Out, seed uint64, tier string) {
 		old := len(events)
 		type job struct {
 			kind string
-			run  func() (ok bool, cleanErr bool, detail string, check func(all []*balloon.Snapshot) (bool, string))
+			run  func() (ok bool, cleanErr bool, detail string, check func(all []*balloon.Snapshot) (bool, string), cur int64)
 		}
 		var jobs []job
 		if old > 0 {
 			k := rng.Intn(old)
 			q := uint64(k + rng.Intn(old-k))
-			jobs = append(jobs, job{"membership(old event, old version)", func() (bool, bool, string, func([]*balloon.Snapshot) (bool, string)) {
+			jobs = append(jobs, job{"membership(old event, old version)", func() (bool, bool, string, func([]*balloon.Snapshot) (bool, string), int64) {
 				p, err := n.QueryDigestMembershipConsistency(events[k], q)
 				if err != nil {
-					return false, true, err.Error(), nil
+					return false, true, err.Error(), nil, -1
 				}
 				return true, false, "", func(all []*balloon.Snapshot) (bool, string) {
 					if int(p.CurrentVersion) >= len(all) || !p.Exists {
 						return false, fmt.Sprintf("exists=%v current=%d", p.Exists, p.CurrentVersion)
 					}
 					return p.DigestVerify(events[k], &balloon.Snapshot{HistoryDigest: all[q].HistoryDigest, HyperDigest: all[p.CurrentVersion].HyperDigest}), fmt.Sprintf("current=%d actual=%d", p.CurrentVersion, p.ActualVersion)
-				}
+				}, int64(p.CurrentVersion)
 			}})
-			jobs = append(jobs, job{"membership(old event, current version)", func() (bool, bool, string, func([]*balloon.Snapshot) (bool, string)) {
+			jobs = append(jobs, job{"membership(old event, current version)", func() (bool, bool, string, func([]*balloon.Snapshot) (bool, string), int64) {
 				p, err := n.QueryDigestMembership(events[k])
 				if err != nil {
-					return false, true, err.Error(), nil
+					return false, true, err.Error(), nil, -1
 				}
 				return true, false, "", func(all []*balloon.Snapshot) (bool, string) {
 					if int(p.CurrentVersion) >= len(all) || !p.Exists {
 						return false, fmt.Sprintf("exists=%v current=%d", p.Exists, p.CurrentVersion)
 					}
 					return p.DigestVerify(events[k], &balloon.Snapshot{HistoryDigest: all[p.QueryVersion].HistoryDigest, HyperDigest: all[p.CurrentVersion].HyperDigest}), fmt.Sprintf("current=%d", p.CurrentVersion)
-				}
+				}, int64(p.CurrentVersion)
 			}})
 			s0 := uint64(rng.Intn(old))
 			e0 := uint64(old - 1 + len(last.evs))
-			jobs = append(jobs, job{fmt.Sprintf("consistency(%d, new version %d)", s0, e0), func() (bool, bool, string, func([]*balloon.Snapshot) (bool, string)) {
+			jobs = append(jobs, job{fmt.Sprintf("consistency(%d, new version %d)", s0, e0), func() (bool, bool, string, func([]*balloon.Snapshot) (bool, string), int64) {
 				p, err := n.QueryConsistency(s0, e0)
 				if err != nil {
-					return false, true, err.Error(), nil
+					return false, true, err.Error(), nil, -1
 				}
 				return true, false, "", func(all []*balloon.Snapshot) (bool, string) {
 					return p.Verify(all[s0], all[e0]), ""
-				}
+				}, -1
 			}})
 		}
-		jobs = append(jobs, job{"membership(event being inserted)", func() (bool, bool, string, func([]*balloon.Snapshot) (bool, string)) {
+		jobs = append(jobs, job{"membership(event being inserted)", func() (bool, bool, string, func([]*balloon.Snapshot) (bool, string), int64) {
 			p, err := n.QueryDigestMembership(last.evs[0])
 			if err != nil {
-				return false, true, err.Error(), nil
+				return false, true, err.Error(), nil, -1
 			}
 			return true, false, "", func(all []*balloon.Snapshot) (bool, string) {
 				// either the pre-state (absent, current = old-1) or the post-state (present and verifying)
@@ -152,12 +153,13 @@ func windowCmd(out *cq.Out, seed uint64, tier string) {
 					return false, "current beyond issued"
 				}
 				return p.DigestVerify(last.evs[0], &balloon.Snapshot{HistoryDigest: all[p.QueryVersion].HistoryDigest, HyperDigest: all[p.CurrentVersion].HyperDigest}), "exists"
-			}
+			}, int64(p.CurrentVersion)
 		}})
 		results := make([]qres, len(jobs))
 		checks := make([]func([]*balloon.Snapshot) (bool, string), len(jobs))
 		var wg sync.WaitGroup
 		finished := make([]chan struct{}, len(jobs))
+		curs := make([]int64, len(jobs))
 		for i, j := range jobs {
 			i, j := i, j
 			finished[i] = make(chan struct{})
@@ -167,7 +169,7 @@ func windowCmd(out *cq.Out, seed uint64, tier string) {
 				defer close(finished[i])
 				var ok, clean bool
 				var detail string
-				p, msg := cq.Catch(func() { ok, clean, detail, checks[i] = j.run() })
+				p, msg := cq.Catch(func() { ok, clean, detail, checks[i], curs[i] = j.run() })
 				switch {
 				case p:
 					results[i] = qres{j.kind, "panic", msg}
@@ -180,6 +182,14 @@ func windowCmd(out *cq.Out, seed uint64, tier string) {
 		}
 		// queries that take the node's apply lock block until the write completes: give the others time to finish
 		time.Sleep(300 * time.Millisecond)
+		early := make([]bool, len(jobs))
+		for i := range jobs {
+			select {
+			case <-finished[i]:
+				early[i] = true
+			default:
+			}
+		}
 		close(ps.release)
 		<-applyDone
 		wg.Wait()
@@ -197,8 +207,44 @@ func windowCmd(out *cq.Out, seed uint64, tier string) {
 			}
 			out.Count("window_"+r.class, 1)
 		}
+		// the observed schedule for the lock-discipline model (Fsm/Window.v): queries that returned while the write was
+		// parked read in the window; the others after the unlock.  An answered membership query observed
+		// (store size at the time it returned, in-memory size = current version + 1)
+		ins := make([]string, len(last.evs))
+		for i := range ins {
+			ins[i] = fmt.Sprintf("%d%%N", 1000+i)
+		}
+		sched := []string{"WLock N", "WCompute N " + cq.List(ins)}
+		var obs []string
+		emit := func(i int, storeLen int) {
+			sched = append(sched, "RLock N")
+			if results[i].class == "answered" && curs[i] >= 0 {
+				sched = append(sched, "RRead N")
+				obs = append(obs, fmt.Sprintf("(%d,%d)%%nat", storeLen, curs[i]+1))
+			}
+			sched = append(sched, "RUnlock N")
+		}
+		for i := range jobs {
+			if early[i] {
+				emit(i, old)
+				out.Count("window_returned_before_persist", 1)
+			}
+		}
+		sched = append(sched, "WPersist N", "WUnlock N")
+		for i := range jobs {
+			if !early[i] {
+				emit(i, old+len(last.evs))
+				out.Count("window_waited_for_persist", 1)
+			}
+		}
+		wcases = append(wcases, fmt.Sprintf("(%d%%nat, %s, %s)", old, cq.List(sched), cq.List(obs)))
 		n.VCloseFSM()
 		os.RemoveAll(dir)
 	}
+	f, _ := os.Create(out.Dir + "/cases.v")
+	fmt.Fprintf(f, "From Coq Require Import List NArith.\nFrom QV Require Import Fsm.Window.\nImport ListNotations.\nOpen Scope N_scope.\n")
+	fmt.Fprintf(f, "Definition cases : list wcase := %s.\n", cq.List(wcases))
+	fmt.Fprintf(f, "Definition R := Eval vm_compute in run_window_cases cases.\nPrint R.\n")
+	f.Close()
 	out.Sample(map[string]interface{}{"trials": trials, "kind": "Mutate parked; membership(old,old), membership(old,current), consistency(old,new), membership(inserting) issued concurrently"})
 }
